@@ -438,3 +438,100 @@ Lemma all_pairs_ok_in ps p : all_pairs_ok ps = true -> In p ps -> is_record p = 
 Proof.
   unfold all_pairs_ok. rewrite forallb_forall. intros H Hin Hr. specialize (H p Hin). unfold pair_ok in H. rewrite Hr in H. exact H.
 Qed.
+
+(* ================================================================== MAC of any length; two-branch circuit-id extraction *)
+Lemma mac_key_agree_ge6 mac : (6 <= List.length mac)%nat -> Forall (fun b => b < 256) mac ->
+  go_mac_key_ebpf mac = c_mac_key_dhcp_chaddr mac /\ go_mac_key_ebpf mac = spec_mac_key (firstn 6 mac).
+Proof.
+  intros Hl Hf.
+  destruct mac as [|b0 [|b1 [|b2 [|b3 [|b4 [|b5 rest]]]]]]; cbn in Hl; try lia.
+  repeat match goal with X : Forall _ (_ :: _) |- _ => inversion X; clear X; subst end.
+  unfold go_mac_key_ebpf, c_mac_key_dhcp_chaddr, go_mac_u64_ebpf, c_mac_u64_dhcp, spec_mac_key.
+  change (Nat.ltb (List.length (b0 :: b1 :: b2 :: b3 :: b4 :: b5 :: rest)) 6) with false. cbv iota.
+  change (mac_loop (b0 :: b1 :: b2 :: b3 :: b4 :: b5 :: rest)) with (mac_loop [b0; b1; b2; b3; b4; b5]).
+  change (mac_loop (chaddr_of (b0 :: b1 :: b2 :: b3 :: b4 :: b5 :: rest))) with (mac_loop [b0; b1; b2; b3; b4; b5]).
+  rewrite mac_loop_val, key_u64_mac48 by assumption. split; reflexivity.
+Qed.
+
+Lemma mac_key_short_zero mac : (List.length mac < 6)%nat -> go_mac_key_ebpf mac = zeros 8.
+Proof.
+  intros H. unfold go_mac_key_ebpf, go_mac_u64_ebpf, key_u64.
+  replace (Nat.ltb (List.length mac) 6) with true by (symmetry; apply Nat.ltb_lt; exact H). apply le_enc_zero.
+Qed.
+
+Lemma mac_key_short_refuted :
+  ~ (forall mac, (List.length mac <= 16)%nat -> Forall (fun b => b < 256) mac -> go_mac_key_ebpf mac = c_mac_key_dhcp_chaddr mac).
+Proof. intros H. specialize (H [1] ltac:(cbn; lia) ltac:(repeat constructor; lia)). vm_compute in H. discriminate H. Qed.
+
+Lemma antispoof_add_only_len6 mac :
+  (List.length mac <> 6)%nat -> go_mac_antispoof_add mac = None.
+Proof. intros H. unfold go_mac_antispoof_add. replace (Nat.eqb (List.length mac) 6) with false by (symmetry; apply Nat.eqb_neq; exact H). reflexivity. Qed.
+
+Lemma key_at_embedded opts off cid : (List.length cid <= CID_LEN)%nat -> embedded opts off cid ->
+  key_at opts off (List.length cid) = go_cid_key cid.
+Proof.
+  intros Hl He. unfold key_at, go_cid_key. rewrite firstn_all2 by exact Hl. rewrite <- (cid_loop cid CID_LEN Hl).
+  apply map_ext. intros i. destruct (Nat.ltb i (List.length cid)) eqn:E; [|reflexivity].
+  apply He. apply Nat.ltb_lt. exact E.
+Qed.
+
+Lemma cid_guard_len cid : cid_guard cid = true -> (0 < List.length cid <= CID_LEN)%nat.
+Proof. unfold cid_guard. rewrite andb_true_iff, Nat.ltb_lt, Nat.leb_le. tauto. Qed.
+
+Lemma cid_len_ok_true cid dataoff avail : cid_guard cid = true -> (dataoff + List.length cid <= avail)%nat ->
+  cid_len_ok (N.of_nat (List.length cid)) dataoff avail = true.
+Proof.
+  intros Hg Hb. apply cid_guard_len in Hg. unfold cid_len_ok. rewrite Nat2N.id.
+  rewrite !andb_true_iff, N.ltb_lt, N.leb_le, Nat.leb_le. unfold CID_LEN in *. lia.
+Qed.
+
+Theorem extract_branch1_agree opts avail cid :
+  (64 <= avail)%nat -> ob opts 3 = 82 -> 4 <= ob opts 4 -> (5 + N.to_nat (ob opts 4) <= avail)%nat -> ob opts 5 = 1 ->
+  ob opts 6 = N.of_nat (List.length cid) -> cid_guard cid = true -> (7 + List.length cid <= avail)%nat -> embedded opts 7 cid ->
+  c_extract_cid opts avail = Some (go_cid_key cid).
+Proof.
+  intros Ha H3 H4 H4b H5 H6 Hg Hb He. unfold c_extract_cid, extract_b1.
+  replace (Nat.leb 64 avail) with true by (symmetry; apply Nat.leb_le; exact Ha).
+  rewrite H3, H5, H6. cbn [N.eqb Pos.eqb].
+  replace (4 <=? ob opts 4) with true by (symmetry; apply N.leb_le; exact H4).
+  replace (Nat.leb (5 + N.to_nat (ob opts 4)) avail) with true by (symmetry; apply Nat.leb_le; exact H4b).
+  cbn [andb]. rewrite cid_len_ok_true by assumption. rewrite Nat2N.id.
+  rewrite key_at_embedded by (try exact He; apply cid_guard_len in Hg; lia). reflexivity.
+Qed.
+
+Lemma extract_at_none opts avail q : ob opts q <> 82 -> extract_at opts avail q = None.
+Proof. intros H. unfold extract_at. replace (ob opts q =? 82) with false by (symmetry; apply N.eqb_neq; exact H). reflexivity. Qed.
+
+Lemma extract_at_some opts avail p cid :
+  ob opts p = 82 -> (p + 8 <= avail)%nat -> 4 <= ob opts (p + 1) -> ob opts (p + 2) = 1 ->
+  ob opts (p + 3) = N.of_nat (List.length cid) -> cid_guard cid = true -> (p + 4 + List.length cid <= avail)%nat ->
+  embedded opts (p + 4) cid -> extract_at opts avail p = Some (go_cid_key cid).
+Proof.
+  intros H0 Hb H1 H2 H3 Hg Hb2 He. unfold extract_at. rewrite H0, H2, H3. cbn [N.eqb Pos.eqb].
+  replace (Nat.leb (p + 8) avail) with true by (symmetry; apply Nat.leb_le; exact Hb).
+  replace (4 <=? ob opts (p + 1)) with true by (symmetry; apply N.leb_le; exact H1).
+  cbn [andb]. rewrite cid_len_ok_true by assumption. rewrite Nat2N.id.
+  rewrite key_at_embedded by (try exact He; apply cid_guard_len in Hg; lia). reflexivity.
+Qed.
+
+Theorem extract_branch2_agree opts avail p cid :
+  In p scan_positions -> (64 <= avail)%nat -> ob opts 3 <> 82 ->
+  (forall q, In q scan_positions -> (q < p)%nat -> ob opts q <> 82) ->
+  ob opts p = 82 -> (p + 8 <= avail)%nat -> 4 <= ob opts (p + 1) -> ob opts (p + 2) = 1 ->
+  ob opts (p + 3) = N.of_nat (List.length cid) -> cid_guard cid = true -> (p + 4 + List.length cid <= avail)%nat ->
+  embedded opts (p + 4) cid -> c_extract_cid opts avail = Some (go_cid_key cid).
+Proof.
+  intros Hin Ha H3 Hq H0 Hb H1 H2 Hn Hg Hb2 He. unfold c_extract_cid, extract_b1.
+  replace (Nat.leb 64 avail) with true by (symmetry; apply Nat.leb_le; exact Ha).
+  replace (ob opts 3 =? 82) with false by (symmetry; apply N.eqb_neq; exact H3).
+  pose proof (extract_at_some opts avail p cid H0 Hb H1 H2 Hn Hg Hb2 He) as Hs.
+  unfold scan_positions in *. cbn [In] in Hin.
+  repeat (destruct Hin as [<-|Hin];
+    [cbn [extract_scan]; rewrite ?extract_at_none by (apply Hq; [cbn; tauto|lia]); rewrite Hs; reflexivity|]).
+  contradiction.
+Qed.
+
+(* an option 82 that holds nothing but a one-byte circuit-id is skipped by the program (opt82_len >= 4) *)
+Lemma extract_short_option_refuted :
+  cid_guard [65] = true /\ c_extract_cid [53; 1; 1; 82; 3; 1; 1; 65; 255] 312 = None /\ go_cid_key [65] <> zeros 32.
+Proof. vm_compute. repeat split; discriminate. Qed.
